@@ -117,6 +117,9 @@ class ChainNode(Entity):
         self._pending_writes: dict[int, SimFuture] = {}
         self._next_seq: int = 0
 
+        # Highest head sequence applied per key (Propagate messages may be reordered)
+        self._applied_seq_by_key: dict[str, int] = {}
+
         self._writes_received = 0
         self._propagations_sent = 0
         self._propagations_received = 0
@@ -254,8 +257,11 @@ class ChainNode(Entity):
 
         self._propagations_received += 1
 
-        # Apply locally
-        yield from self._store.put(key, value)
+        # Apply locally -- unless a newer write to this key was applied already
+        # (messages can overtake each other); it is still passed down the chain.
+        if seq >= self._applied_seq_by_key.get(key, 0):
+            self._applied_seq_by_key[key] = seq
+            yield from self._store.put(key, value)
 
         if self._craq_enabled:
             self._dirty_keys.add(key)
